@@ -344,8 +344,31 @@ func (g *opsGen) sequence(dir string, nops int) error {
 		post := dumpLog(l)
 		g.cases = append(g.cases, fmt.Sprintf("LStep %d %s %s %s %s", g.id("step "+op), pre, op, res, post))
 		g.dist["step/"+strings.Fields(strings.Trim(op, "()"))[0]+"/"+res]++
+		// byte level: now and then, and after every removal / reopen, the raw file of each (small) segment
+		// must be an image of its entries (offset table, header, data region; coq/SegLog/Segment.v)
+		if g.rnd.Intn(8) == 0 || strings.HasPrefix(op, "(ORemoveGTE") || strings.HasPrefix(op, "OReopen") || strings.HasPrefix(op, "(OReopen") {
+			g.bytesCases(l, op)
+		}
 	}
 	return nil
+}
+
+func (g *opsGen) bytesCases(l *Log, op string) {
+	for s := l.first; s != nil; s = s.next {
+		if len(s.file.Data) <= 6000 {
+			var ents []string
+			for k := 1; k <= s.n; k++ {
+				from, to := s.offset(k), s.offset(k+1)
+				ents = append(ents, coqBytes(s.file.Data[from:to]))
+			}
+			g.cases = append(g.cases, fmt.Sprintf("LBytes %d %d [%s] %d %s", g.id(fmt.Sprintf("bytes of segment %d after %s", s.prevIndex, op)),
+				len(s.file.Data), strings.Join(ents, ";"), s.offset(0), coqBytes(s.file.Data)))
+			g.dist["bytes"]++
+		}
+		if s == l.last {
+			break
+		}
+	}
 }
 
 func opsMain(args []string) int {
